@@ -56,6 +56,30 @@ def apply(k, txt, tech):
         t["technique"]+=tech
 for k,(txt,tech) in ADD2.items():
     apply(k,txt,tech)
+ADD3={
+ "C01":("Round 3: the merge rewrite re-emits every stored field unchanged; writeOff/ActualSize move and are restored together; nothing hangs on DB.isMerging or on a flag derived from it.", ""),
+ "C02":("Round 3: the bucket-meta and root-index codecs are symmetric (offsets, sizes, checksum range).", ", codec symmetry"),
+ "C03":("Round 3: segments are replayed in ascending id order; the merge rewrite keeps the stored timestamp (TTL is not restarted).", ""),
+ "C04":("Round 3: only the all-zero header means end of data (an empty bucket name is a legal record); every log site lies on every success path.", ""),
+ "C05":("Round 3: no API edits pending or committed list state directly; a failed commit leaves no list operation applied; the commit marker is only on the last record; every committed record is applied (no side-table skipping); merge keeps log order; opening a segment only grows it.", ""),
+ "C06":("Round 3: a failed commit leaves no set operation applied; commit marker only on the last record; every committed record is applied.", ""),
+ "C07":("Round 3: a failed commit leaves no sorted-set operation applied; every committed record is applied (re-added members are not skipped); the merge rewrite set is only appended to.", ""),
+ "C08":("Round 3: RWManager.ReadAt implementations agree on short reads; only the all-zero header ends a scan; opening a segment only grows it; every committed record is applied on reopen.", ""),
+ "C09":("Round 3: only the all-zero header ends a scan; Truncate only grows; a fit test in the decoder may reject only a record that does not fit (strict); the byte count of a read is never turned into a non-EOF error; the rebuild parses every listed segment; every successful RWManager construction has sized the file.", ""),
+ "C10":("Round 3: the rebuild parses every listed segment unless none is listed; counters of the active file are touched only after a successful record write (also inside DataFile.WriteAt).", ""),
+ "C11":("Round 3: the rebuild parses every listed segment unless none is listed.", ""),
+ "C13":("Round 3: every committed record is applied in call order (no skipping of 'superseded' records).", ""),
+ "C15":("Round 3: the rewrite re-emits every stored field unchanged and keeps log order; the key-exists path of BPTree.Insert always replaces hint and entry together.", ""),
+ "C16":("Round 3: every successful RWManager construction has sized the file (a 0-byte output segment left by a crash is grown again); the open-time applier does not turn an error the commit-time applier ignores into a failure (both copies of a record exist in the crash window).", ""),
+ "C17":("Round 3: read paths (which Merge's unlocked scan shares) write no shared state.", ""),
+ "C18":("Round 3: RWManager.Sync reaches a real sync and read paths modify no file (no user-space write buffering that a hot copy would miss).", ""),
+ "C19":("Round 3: short reads, fit tests, Truncate and constructor sizing agree between FileIO and MMap.", ""),
+ "C20":("Round 3: no package-level mutable cache is reachable from the API.", ""),
+ "C21":("Round 3: no package-level buffer or pool holds encoded records between calls; writeOff/ActualSize are restored together (no record written across the end of a mapping).", ""),
+ "C22":("Round 3 (RAM-mode switch clause): hints are built where the record is written; the key-exists path of Insert replaces hint and entry together; nothing hangs on DB.isMerging.", ""),
+}
+for k,(txt,tech) in ADD3.items():
+    apply(k,txt,tech)
 for k,(txt,tech) in ADD.items():
     t=T[k]
     marker=txt[:40]
